@@ -55,10 +55,112 @@ Proof. induction l as [|a l IH]; [reflexivity|]. cbn [map forallb]. rewrite IH. 
 Lemma forallb_ext' {A} (f g : A -> bool) (l : list A) : (forall x, f x = g x) -> forallb f l = forallb g l.
 Proof. intros H. induction l as [|a l IH]; [reflexivity|]. cbn [forallb]. rewrite H, IH. reflexivity. Qed.
 
+Lemma Some_inj {A} (a b : A) : Some a = Some b -> a = b.
+Proof. congruence. Qed.
+
 Lemma filter_id {A} (f : A -> bool) (l : list A) : (forall x, In x l -> f x = true) -> filter f l = l.
 Proof.
   induction l as [|a l IH]; intros H; [reflexivity|]. cbn [filter].
   rewrite (H a (or_introl eq_refl)). f_equal. apply IH. intros x Hx. apply H. right. exact Hx.
+Qed.
+
+Lemma filter_neg_none {A} (f : A -> bool) (l : list A) : filter f (filter (fun o => negb (f o)) l) = [].
+Proof.
+  induction l as [|o l IH]; [reflexivity|]. cbn [filter].
+  destruct (f o) eqn:E; cbn [negb filter]; [exact IH|]. rewrite E. exact IH.
+Qed.
+
+Lemma filter_partition_perm {A} (f : A -> bool) (l : list A) :
+  Permutation (filter (fun o => negb (f o)) l ++ filter f l) l.
+Proof.
+  induction l as [|o l IH]; [constructor|]. cbn [filter].
+  destruct (f o); cbn [negb app].
+  - eapply Permutation_trans; [apply Permutation_sym, Permutation_middle|]. constructor. exact IH.
+  - constructor. exact IH.
+Qed.
+
+Lemma fold_left_cons' {A B} (f : A -> B -> A) (b : B) (l : list B) (a : A) :
+  fold_left f (b :: l) a = fold_left f l (f a b).
+Proof. reflexivity. Qed.
+
+Lemma fold_left_filter_nil {A B} (f : A -> B -> A) (g : B -> bool) (a : A) : fold_left f (filter g []) a = a.
+Proof. reflexivity. Qed.
+
+Lemma filter_cons' {A} (g : A -> bool) (o : A) (l : list A) :
+  filter g (o :: l) = if g o then o :: filter g l else filter g l.
+Proof. reflexivity. Qed.
+
+Lemma filter_none' {A} (f : A -> bool) (l : list A) : (forall x, In x l -> f x = false) -> filter f l = [].
+Proof.
+  induction l as [|a l IH]; intros H; [reflexivity|]. cbn [filter].
+  rewrite (H a (or_introl eq_refl)). apply IH. intros x Hx. apply H. right. exact Hx.
+Qed.
+
+Lemma filter_or_perm {A} (f g : A -> bool) (l : list A) :
+  (forall x, f x = true -> g x = false) ->
+  Permutation (filter f l ++ filter g l) (filter (fun x => f x || g x) l).
+Proof.
+  intros Hd. induction l as [|a l IH]; [constructor|]. cbn [filter].
+  destruct (f a) eqn:Ef; cbn [orb].
+  - rewrite (Hd a Ef). cbn [app]. constructor. exact IH.
+  - destruct (g a); [|exact IH].
+    eapply Permutation_trans; [apply Permutation_sym, Permutation_middle|]. constructor. exact IH.
+Qed.
+
+(* a file never holds a completely masked tile: an invariant of Model/Lock.v *)
+Definition file_canon {T} (masked : T -> bool) (f : @fstate T) : Prop :=
+  match f with FWhole t => masked t = false | _ => True end.
+
+Lemma lstep_file_canon {T} (dflt : T) masked fs (s : @lstate T) a :
+  file_canon masked (file s) -> file_canon masked (file (lstep dflt masked fs s a)).
+Proof.
+  intros H. unfold lstep. destruct (negb (lenabled s a)); [exact H|].
+  destruct a as [u|u|u|u|u].
+  - destruct (lock s); exact H.
+  - exact H.
+  - destruct (nth_error (us s) u) as [[| |seen| | |]|]; try exact H. exact I.
+  - destruct (nth_error (us s) u) as [[| | |t| |]|]; try exact H. cbn [file].
+    destruct (masked t) eqn:E; [exact I|exact E].
+  - exact H.
+Qed.
+
+Lemma lrun_file_canon {T} (dflt : T) masked fs l : forall (s : @lstate T),
+  file_canon masked (file s) -> file_canon masked (file (lrun dflt masked fs s l)).
+Proof.
+  induction l as [|a l IH]; intros s H; [exact H|]. cbn [lrun fold_left].
+  apply IH. apply lstep_file_canon. exact H.
+Qed.
+
+(* every tile's protocol can be run to completion (from C10's progress theorems) *)
+Lemma tile_completes {T} (dflt : T) masked (fs : list (T -> T))
+      (Hm : forall t, masked t = true -> t = dflt) t0 file0 (H0 : content dflt file0 = Some t0) :
+  exists l, all_done (lrun dflt masked fs (linit fs file0) l) = true.
+Proof.
+  assert (Hgen : forall m l, (lmeasure (us (lrun dflt masked fs (linit fs file0) l)) <= m)%nat ->
+                             exists l', all_done (lrun dflt masked fs (linit fs file0) (l ++ l')) = true).
+  { induction m as [|m IH]; intros l Hle.
+    - destruct (all_done (lrun dflt masked fs (linit fs file0) l)) eqn:Ed.
+      + exists []. rewrite app_nil_r. exact Ed.
+      + destruct (LockP.lock_no_deadlock dflt masked fs Hm t0 file0 H0 l Ed) as (a & Hen & Hpol).
+        pose proof (LockP.lock_measure dflt masked fs _ a Hen Hpol). lia.
+    - destruct (all_done (lrun dflt masked fs (linit fs file0) l)) eqn:Ed.
+      + exists []. rewrite app_nil_r. exact Ed.
+      + destruct (LockP.lock_no_deadlock dflt masked fs Hm t0 file0 H0 l Ed) as (a & Hen & Hpol).
+        pose proof (LockP.lock_measure dflt masked fs _ a Hen Hpol) as Hlt.
+        destruct (IH (l ++ [a])) as (l' & Hl').
+        * unfold lrun in *. rewrite fold_left_app. cbn [fold_left]. lia.
+        * exists (a :: l'). rewrite <- app_assoc in Hl'. exact Hl'. }
+  destruct (Hgen _ [] (le_n _)) as (l' & Hl'). exists l'. exact Hl'.
+Qed.
+
+Lemma lrun_no_updaters {T} (dflt : T) masked file0 l :
+  lrun dflt masked [] (linit [] file0) l = linit [] file0.
+Proof.
+  induction l as [|a l IH]; [reflexivity|]. cbn [lrun fold_left].
+  assert (E : lstep dflt masked [] (linit [] file0) a = linit [] file0).
+  { unfold lstep. destruct a as [u|u|u|u|u]; unfold lenabled, linit; cbn [us length repeat];
+      destruct u; reflexivity. }
+  rewrite E. exact IH.
 Qed.
 
 (* elements of [os] at the indices [idxs] (indices out of range are skipped) *)
@@ -158,8 +260,11 @@ Section Glue.
     intros row Hin. specialize (Hr row Hin).
     unfold row_masked in Hr. rewrite andb_true_iff, Nat.eqb_eq, forallb_forall in Hr. destruct Hr as [Hrl Hra].
     rewrite (all_eq_repeat None row); [rewrite Hrl; reflexivity|].
-    intros v Hv. specialize (Hra v Hv). destruct v; [discriminate|reflexivity].
+    intros v Hv. specialize (Hra v Hv). destruct v as [v0|]; [cbn in Hra; discriminate Hra|reflexivity].
   Qed.
+
+  (* from here on [tab] is used through the lemmas above only *)
+  Opaque tab.
 
   (* ---- one op as an updater of its tile ---------------------------------------------- *)
 
@@ -198,15 +303,28 @@ Section Glue.
     apply tab_ext. intros r c Hr Hc. symmetry. apply (completely_masked_spec _ Em r c Hr Hc).
   Qed.
 
+  Lemma run_ops_cons (o : op) (os : list op) (s : store) : run_ops (o :: os) s = run_ops os (apply_op s o).
+  Proof. reflexivity. Qed.
+
+  Lemma run_ops_nil (s : store) : run_ops [] s = s.
+  Proof. reflexivity. Qed.
+
+  Lemma read_apply_op_other (s : store) o n x y :
+    targets n x y o = false -> read_image_masked (apply_op s o) n x y = read_image_masked s n x y.
+  Proof. intros E. unfold read_image_masked. rewrite (apply_op_other s o n x y E). reflexivity. Qed.
+
+  (* (every step below is a rewrite with a generic list lemma: conversions that
+     mention [tab] on both sides are expensive for the kernel) *)
   Lemma run_ops_cell n x y : forall (os : list op) (s : store),
     tab (read_image_masked (run_ops os s) n x y) =
     fold_left (fun t o => tab_fn o t) (filter (targets n x y) os) (tab (read_image_masked s n x y)).
   Proof.
-    induction os as [|o os IH]; intros s; [reflexivity|].
-    unfold run_ops. cbn [fold_left filter]. fold (run_ops os (apply_op s o)). rewrite IH.
-    destruct (targets n x y o) eqn:E.
-    - cbn [fold_left]. rewrite (tab_apply_op s o n x y E). reflexivity.
-    - unfold read_image_masked at 1. rewrite (apply_op_other s o n x y E). reflexivity.
+    induction os as [|o os IH]; intros s.
+    - rewrite run_ops_nil, fold_left_filter_nil. reflexivity.
+    - rewrite run_ops_cons, IH, filter_cons'.
+      destruct (targets n x y o) eqn:E.
+      + rewrite fold_left_cons'. apply f_equal. exact (tab_apply_op s o n x y E).
+      + rewrite (read_apply_op_other s o n x y E). reflexivity.
   Qed.
 
   (* ---- the lock protocol on one tile ---------------------------------------------------- *)
@@ -322,22 +440,31 @@ Section Glue.
     Let g := grun (ginit s0) gl.
     Hypothesis Hdone : forall n x y, all_done (g n x y) = true.
 
+    (* the updates of a tile in the order in which their updaters acquired its lock *)
+    Definition tile_seq (n x y : Z) : list op := pick (ops_at ops n x y) (rev (order (g n x y))).
+
+    Lemma g_proj n x y :
+      g n x y = lrun tdflt tmasked (fs_at ops n x y) (linit (fs_at ops n x y) (file_of (s0 n x y))) (proj n x y gl).
+    Proof. unfold g. rewrite grun_proj. reflexivity. Qed.
+
+    Lemma par_tile_exact n x y :
+      Permutation (tile_seq n x y) (ops_at ops n x y) /\ lock (g n x y) = None /\
+      content tdflt (file (g n x y)) = Some (tab (read_image_masked (run_ops (tile_seq n x y) s0) n x y)).
+    Proof.
+      pose proof (Hdone n x y) as Hd. unfold tile_seq. rewrite g_proj in *.
+      destruct (tile_linearizable ops n x y s0 (proj n x y gl) Hd) as (Hl & Hp & Hc). auto.
+    Qed.
+
     Lemma par_tile n x y :
       exists seq, Permutation seq (ops_at ops n x y) /\ lock (g n x y) = None /\
         tab (read_image_masked (par_store g) n x y) = tab (read_image_masked (run_ops seq s0) n x y).
     Proof.
-      pose proof (Hdone n x y) as Hd. unfold g in Hd. rewrite grun_proj in Hd. unfold ginit in Hd.
-      destruct (tile_linearizable ops n x y s0 (proj n x y gl) Hd) as (Hl & Hp & Hc).
-      exists (pick (ops_at ops n x y)
-                (rev (order (lrun tdflt tmasked (fs_at ops n x y)
-                               (linit (fs_at ops n x y) (file_of (s0 n x y))) (proj n x y gl))))).
-      split; [exact Hp|]. unfold g. rewrite grun_proj. unfold ginit. split; [exact Hl|].
-      unfold read_image_masked at 1. unfold par_store. rewrite grun_proj. unfold ginit.
-      destruct (file (lrun tdflt tmasked (fs_at ops n x y)
-                       (linit (fs_at ops n x y) (file_of (s0 n x y))) (proj n x y gl))) as [|tt|];
-        cbn [content cell_of] in *.
-      - injection Hc as Hc. exact Hc.
-      - injection Hc as Hc. rewrite Hc. apply tab_untab_tab.
+      destruct (par_tile_exact n x y) as (Hp & Hl & Hc).
+      exists (tile_seq n x y). split; [exact Hp|]. split; [exact Hl|].
+      unfold read_image_masked at 1. unfold par_store.
+      destruct (file (g n x y)) as [|tt|]; cbn [content cell_of] in *.
+      - apply Some_inj in Hc. exact Hc.
+      - apply Some_inj in Hc. rewrite Hc. apply tab_untab_tab.
       - discriminate.
     Qed.
 
@@ -350,20 +477,162 @@ Section Glue.
       assert (Hsk : filter (targets n x y) sk = sk).
       { apply filter_id. intros o Ho. apply (Permutation_in _ Hp) in Ho. apply filter_In in Ho. tauto. }
       set (rest := filter (fun o => negb (targets n x y o)) ops).
-      assert (Hrest : filter (targets n x y) rest = []).
-      { unfold rest. induction ops as [|o l IH]; [reflexivity|]. cbn [filter].
-        destruct (targets n x y o) eqn:E; cbn [negb filter]; [exact IH|]. rewrite E. exact IH. }
+      assert (Hrest : filter (targets n x y) rest = []) by apply filter_neg_none.
       assert (Hperm : Permutation (rest ++ sk) ops).
       { eapply Permutation_trans; [apply Permutation_app_head; exact Hp|].
-        unfold rest, ops_at. clear. induction ops as [|o l IH]; [constructor|]. cbn [filter].
-        destruct (targets n x y o); cbn [negb app].
-        - eapply Permutation_trans; [apply Permutation_sym, Permutation_middle|]. constructor. exact IH.
-        - constructor. exact IH. }
+        apply filter_partition_perm. }
       exists (rest ++ sk). split; [|split; [exact Hperm|]].
       - intros o. split; intros Ho.
         + eapply Permutation_in; [exact Hperm|exact Ho].
         + eapply Permutation_in; [apply Permutation_sym; exact Hperm|exact Ho].
-      - rewrite Ht, !run_ops_cell, filter_app, Hrest. reflexivity.
+      - rewrite Ht. rewrite (run_ops_cell n x y sk s0), (run_ops_cell n x y (rest ++ sk) s0).
+        rewrite filter_app, Hrest. reflexivity.
+    Qed.
+
+    (* ---- one arrangement of all the updates that agrees with the run on every tile ---- *)
+
+    Definition tkey (o : op) : Z * Z * Z := (p_n (op_pl o), p_x (op_pl o), p_y (op_pl o)).
+    Definition tgk (k : Z * Z * Z) (o : op) : bool := let '(n, x, y) := k in targets n x y o.
+    Definition tseq (k : Z * Z * Z) : list op := let '(n, x, y) := k in tile_seq n x y.
+    Definition gseq (keys : list (Z * Z * Z)) : list op := flat_map tseq keys.
+    Definition in_keys (keys : list (Z * Z * Z)) (o : op) : bool := existsb (fun k => tgk k o) keys.
+
+    Lemma key_dec (a b : Z * Z * Z) : {a = b} + {a <> b}.
+    Proof. repeat decide equality. Qed.
+
+    Lemma tgk_key o : tgk (tkey o) o = true.
+    Proof. unfold tgk, tkey, targets. apply same_pos_true. auto. Qed.
+
+    Lemma tgk_unique k k' o : tgk k o = true -> tgk k' o = true -> k = k'.
+    Proof.
+      destruct k as [[n x] y], k' as [[n' x'] y']. unfold tgk, targets. rewrite !same_pos_true.
+      intros (A & B & C) (A' & B' & C'). congruence.
+    Qed.
+
+    Lemma tseq_targets k o : In o (tseq k) -> In o ops /\ tgk k o = true.
+    Proof.
+      destruct k as [[n x] y]. unfold tseq, tile_seq, tgk. intros H. apply pick_in in H.
+      unfold ops_at in H. apply filter_In in H. exact H.
+    Qed.
+
+    Lemma tseq_perm k : Permutation (tseq k) (filter (tgk k) ops).
+    Proof. destruct k as [[n x] y]. exact (proj1 (par_tile_exact n x y)). Qed.
+
+    Lemma gseq_filter keys : NoDup keys -> forall k,
+      filter (tgk k) (gseq keys) = if in_dec key_dec k keys then tseq k else [].
+    Proof.
+      induction 1 as [|k0 ks Hn Hnd IH]; intros k; [reflexivity|].
+      unfold gseq in *. cbn [flat_map]. rewrite filter_app, IH.
+      destruct (in_dec key_dec k (k0 :: ks)) as [Hin|Hnin].
+      - destruct (key_dec k0 k) as [->|Hne].
+        + destruct (in_dec key_dec k ks); [contradiction|]. rewrite app_nil_r.
+          apply filter_id. intros o Ho. apply tseq_targets in Ho. tauto.
+        + destruct Hin as [E|Hin]; [congruence|]. destruct (in_dec key_dec k ks); [|contradiction].
+          rewrite filter_none'; [reflexivity|]. intros o Ho. apply tseq_targets in Ho.
+          destruct (tgk k o) eqn:E; [|reflexivity]. exfalso. apply Hne.
+          eapply tgk_unique; [apply Ho|exact E].
+      - destruct (in_dec key_dec k ks) as [H1|_]; [exfalso; apply Hnin; right; exact H1|].
+        rewrite app_nil_r. apply filter_none'. intros o Ho. apply tseq_targets in Ho.
+        destruct (tgk k o) eqn:E; [|reflexivity]. exfalso. apply Hnin. left.
+        eapply tgk_unique; [apply Ho|exact E].
+    Qed.
+
+    Lemma gseq_perm keys : NoDup keys -> Permutation (gseq keys) (filter (in_keys keys) ops).
+    Proof.
+      induction 1 as [|k0 ks Hn Hnd IH].
+      - cbn [gseq flat_map]. rewrite filter_none'; [constructor|]. reflexivity.
+      - unfold gseq in *. cbn [flat_map].
+        eapply Permutation_trans; [apply Permutation_app; [apply tseq_perm|exact IH]|].
+        apply (filter_or_perm (tgk k0) (in_keys ks) ops).
+        intros o Ho. destruct (in_keys ks o) eqn:E; [|reflexivity]. exfalso.
+        unfold in_keys in E. apply existsb_exists in E. destruct E as (k & Hk & Hko).
+        apply Hn. rewrite (tgk_unique k0 k o Ho Hko). exact Hk.
+    Qed.
+
+    Definition keys0 : list (Z * Z * Z) := nodup key_dec (map tkey ops).
+    Definition global_seq : list op := gseq keys0.
+
+    Lemma global_seq_perm : Permutation global_seq ops.
+    Proof.
+      unfold global_seq. eapply Permutation_trans; [apply gseq_perm, NoDup_nodup|].
+      rewrite filter_id; [apply Permutation_refl|]. intros o Ho. unfold in_keys. apply existsb_exists.
+      exists (tkey o). split; [apply nodup_In, in_map; exact Ho|apply tgk_key].
+    Qed.
+
+    Lemma global_seq_tile n x y : filter (targets n x y) global_seq = tile_seq n x y.
+    Proof.
+      change (filter (tgk (n, x, y)) global_seq = tseq (n, x, y)).
+      unfold global_seq. rewrite gseq_filter by apply NoDup_nodup.
+      destruct (in_dec key_dec (n, x, y) keys0) as [Hin|Hnin]; [reflexivity|].
+      destruct (tseq (n, x, y)) as [|o l] eqn:E; [reflexivity|]. exfalso.
+      assert (Ho : In o (tseq (n, x, y))) by (rewrite E; left; reflexivity).
+      apply tseq_targets in Ho. destruct Ho as [Hin Ht]. apply Hnin.
+      rewrite <- (tgk_unique (tkey o) (n, x, y) o (tgk_key o) Ht). apply nodup_In, in_map. exact Hin.
+    Qed.
+
+    (* the parallel run is an atomic run: ONE arrangement of exactly the updates,
+       applied atomically in that order (C09's semantics), leaves on EVERY tile the
+       content the parallel run leaves *)
+    Lemma par_global_linearization :
+      Permutation global_seq ops /\
+      forall n x y,
+        lock (g n x y) = None /\
+        content tdflt (file (g n x y)) = Some (tab (read_image_masked (run_ops global_seq s0) n x y)).
+    Proof.
+      split; [exact global_seq_perm|]. intros n x y.
+      destruct (par_tile_exact n x y) as (Hp & Hl & Hc). split; [exact Hl|].
+      rewrite Hc. f_equal.
+      rewrite (run_ops_cell n x y (tile_seq n x y) s0), (run_ops_cell n x y global_seq s0).
+      rewrite global_seq_tile. f_equal. apply filter_id. intros o Ho.
+      apply (Permutation_in _ Hp) in Ho. unfold ops_at in Ho. apply filter_In in Ho. tauto.
+    Qed.
+
+    (* ... and the same set of tile files *)
+    Hypothesis Hcanon0 : canon s0.
+
+    Lemma run_ops_canon : forall (os : list op) (s : store), canon s -> canon (run_ops os s).
+    Proof.
+      induction os as [|o os IH]; intros s Hc; [exact Hc|]. rewrite run_ops_cons. apply IH.
+      unfold apply_op. apply write_image_canon. exact Hc.
+    Qed.
+
+    Lemma completely_masked_none : completely_masked (fun _ _ : Z => @None V) = true.
+    Proof.
+      unfold completely_masked. apply forallb_forall. intros r _. apply forallb_forall. intros c _. reflexivity.
+    Qed.
+
+    Lemma g_file_canon n x y : file_canon tmasked (file (g n x y)).
+    Proof.
+      rewrite g_proj. apply lrun_file_canon. unfold linit. cbn [file].
+      destruct (s0 n x y) as [b|] eqn:E; cbn [file_of file_canon]; [|exact I].
+      rewrite tmasked_tab. exact (Hcanon0 n x y b E).
+    Qed.
+
+    Lemma par_files n x y : par_store g n x y = None <-> run_ops global_seq s0 n x y = None.
+    Proof.
+      destruct par_global_linearization as (_ & Hall). destruct (Hall n x y) as (_ & Hc).
+      pose proof (g_file_canon n x y) as Hf. unfold par_store.
+      pose proof (run_ops_canon global_seq s0 Hcanon0 n x y) as Hrc.
+      unfold read_image_masked in Hc.
+      destruct (file (g n x y)) as [|tt|]; cbn [content cell_of file_canon] in *.
+      - apply Some_inj in Hc. split; [intros _|reflexivity].
+        destruct (run_ops global_seq s0 n x y) as [b|]; [|reflexivity]. exfalso.
+        destruct (completely_masked_false b (Hrc b eq_refl)) as (r & c & Hr & Hc' & Hne).
+        apply Hne. symmetry. unfold tdflt in Hc. apply (tab_eq_window _ _ r c Hc Hr Hc').
+      - apply Some_inj in Hc. split; [discriminate|]. intros E. rewrite E in Hc.
+        rewrite Hc, tmasked_tab, completely_masked_none in Hf. discriminate.
+      - discriminate.
+    Qed.
+
+    Lemma par_global_read n x y :
+      tab (read_image_masked (par_store g) n x y) = tab (read_image_masked (run_ops global_seq s0) n x y).
+    Proof.
+      destruct par_global_linearization as (_ & Hall). destruct (Hall n x y) as (_ & Hc).
+      unfold read_image_masked at 1. unfold par_store.
+      destruct (file (g n x y)) as [|tt|]; cbn [content cell_of] in *.
+      - apply Some_inj in Hc. exact Hc.
+      - apply Some_inj in Hc. rewrite Hc. apply tab_untab_tab.
+      - discriminate.
     Qed.
   End Product.
 
@@ -383,8 +652,9 @@ Section Glue.
     { intros R C.
       destruct (par_tile_seq (the_ops inv ins) empty_store gl Hdone (t_levels t) (C / 256) (R / 256))
         as (seq & Hmem & _ & Ht').
-      rewrite <- (any_order_gives_mosaic W H t Ht inv ins Hv Ha seq Hmem R C).
-      unfold MultiTanP.D, mosaic_display. apply tab_eq_window; [exact Ht'| |].
+      transitivity (mosaic_display t inv (run_ops seq empty_store) R C);
+        [|exact (any_order_gives_mosaic W H t Ht inv ins Hv Ha seq Hmem R C)].
+      unfold mosaic_display. apply tab_eq_window; [exact Ht'| |].
       - pose proof (Z.mod_pos_bound R 256 ltac:(lia)). unfold display_row. destruct inv; lia.
       - apply Z.mod_pos_bound. lia. }
     split; [|split; [exact Hdisp|]].
@@ -392,4 +662,159 @@ Section Glue.
     - destruct (serial_gives_mosaic W H t Ht inv ins Hv Ha) as (s_ser & E & Hs).
       exists s_ser. split; [exact E|]. intros R C. rewrite Hdisp. symmetry. apply Hs.
   Qed.
+
+  (* ---- the hypothesis "all updaters done" is satisfiable for every run ---------------- *)
+
+  Lemma key_is_self n x y : key_is (n, x, y) n x y = true.
+  Proof. unfold key_is. apply same_pos_true. auto. Qed.
+
+  Lemma key_is_other k n x y : k <> (n, x, y) -> key_is k n x y = false.
+  Proof.
+    destruct k as [[a b] c]. intros Hne. unfold key_is. destruct (same_pos a b c n x y) eqn:E; [|reflexivity].
+    apply same_pos_true in E. destruct E as (-> & -> & ->). contradiction.
+  Qed.
+
+  Lemma proj_app n x y l1 l2 : proj n x y (l1 ++ l2) = proj n x y l1 ++ proj n x y l2.
+  Proof. unfold proj. rewrite filter_app, map_app. reflexivity. Qed.
+
+  Lemma proj_own n x y (l : list lact) : proj n x y (map (pair (n, x, y)) l) = l.
+  Proof.
+    unfold proj. induction l as [|a l IH]; [reflexivity|]. cbn [map filter fst].
+    rewrite key_is_self. cbn [map snd]. rewrite IH. reflexivity.
+  Qed.
+
+  Lemma proj_foreign n x y (l : list gact) :
+    (forall a, In a l -> fst a <> (n, x, y)) -> proj n x y l = [].
+  Proof.
+    unfold proj. intros H. rewrite filter_none'; [reflexivity|].
+    intros a Ha. apply key_is_other. apply H. exact Ha.
+  Qed.
+
+  Lemma product_completes (ops : list op) (s0 : store) :
+    exists gl, forall n x y, all_done (grun ops (ginit ops s0) gl n x y) = true.
+  Proof.
+    assert (Hk : forall ks : list (Z * Z * Z), NoDup ks ->
+              exists gl, (forall a, In a gl -> In (fst a) ks) /\
+                         forall n x y, In (n, x, y) ks ->
+                           all_done (lrun tdflt tmasked (fs_at ops n x y)
+                                       (linit (fs_at ops n x y) (file_of (s0 n x y))) (proj n x y gl)) = true).
+    { induction 1 as [|k0 ks Hn Hnd IH].
+      - exists []. split; [intros a []|intros n x y []].
+      - destruct IH as (gl' & Hin' & Hd'). destruct k0 as [[n0 x0] y0].
+        destruct (tile_completes tdflt tmasked (fs_at ops n0 x0 y0) tmasked_is_dflt _ (file_of (s0 n0 x0 y0))
+                    (file_of_content (s0 n0 x0 y0))) as (l0 & Hl0).
+        exists (map (pair (n0, x0, y0)) l0 ++ gl'). split.
+        + intros a Ha. apply in_app_or in Ha. destruct Ha as [Ha|Ha].
+          * apply in_map_iff in Ha. destruct Ha as (b & <- & _). left. reflexivity.
+          * right. apply Hin'. exact Ha.
+        + intros n x y [E|Hin].
+          * injection E as <- <- <-. rewrite proj_app, proj_own, (proj_foreign n0 x0 y0 gl'), app_nil_r; [exact Hl0|].
+            intros a Ha E. apply Hn. rewrite <- E. apply Hin'. exact Ha.
+          * rewrite proj_app, (proj_foreign n x y (map _ l0)); [apply Hd'; exact Hin|].
+            intros a Ha E. apply in_map_iff in Ha. destruct Ha as (b & <- & _). cbn [fst] in E.
+            apply Hn. rewrite E. exact Hin. }
+    destruct (Hk (nodup key_dec (map tkey ops)) (NoDup_nodup _ _)) as (gl & _ & Hd).
+    exists gl. intros n x y. rewrite grun_proj. unfold ginit.
+    destruct (in_dec key_dec (n, x, y) (nodup key_dec (map tkey ops))) as [Hin|Hnin]; [apply Hd; exact Hin|].
+    assert (E : fs_at ops n x y = []).
+    { unfold fs_at, ops_at. rewrite filter_none'; [reflexivity|]. intros o Ho.
+      destruct (targets n x y o) eqn:Et; [|reflexivity]. exfalso. apply Hnin.
+      change (tgk (n, x, y) o = true) in Et.
+      rewrite <- (tgk_unique (tkey o) (n, x, y) o (tgk_key o) Et). apply nodup_In, in_map. exact Ho. }
+    rewrite E, lrun_no_updaters. reflexivity.
+  Qed.
+
+  Lemma multitan_parallel_atomic_lemma W H t inv (ins : list (@input V)) (gl : list gact) :
+    study_tiling W H = Some t -> (forall i, In i ins -> valid_input t i) -> overlaps_agree ins ->
+    let g := grun (the_ops inv ins) (ginit (the_ops inv ins) empty_store) gl in
+    (forall n x y, all_done (g n x y) = true) ->
+    exists seq s_ref,
+      Permutation seq (the_ops inv ins) /\
+      tile_image true t inv (pasted ins) = Some s_ref /\
+      forall n x y,
+        content tdflt (file (g n x y)) = Some (tab (read_image_masked (run_ops seq empty_store) n x y)) /\
+        (par_store g n x y = None <-> run_ops seq empty_store n x y = None) /\
+        (par_store g n x y = None <-> s_ref n x y = None) /\
+        (forall r c, 0 <= r < 256 -> 0 <= c < 256 ->
+           read_image_masked (par_store g) n x y r c = read_image_masked s_ref n x y r c).
+  Proof.
+    intros Ht Hv Ha g Hdone.
+    assert (Hcan : canon (@empty_store V)) by (intros n x y b E; discriminate).
+    set (seq := global_seq (the_ops inv ins) empty_store gl).
+    destruct (par_global_linearization (the_ops inv ins) empty_store gl Hdone) as (Hperm & Hall).
+    fold seq in Hperm, Hall.
+    assert (Hmem : forall o, In o seq <-> In o (the_ops inv ins)).
+    { intros o. split; intros Ho; [eapply Permutation_in; [exact Hperm|exact Ho]|
+                                   eapply Permutation_in; [apply Permutation_sym; exact Hperm|exact Ho]]. }
+    destruct (tiles_identical W H t Ht inv ins Hv Ha seq Hmem) as (s_ref & Eref & Hsame).
+    exists seq, s_ref. split; [exact Hperm|]. split; [exact Eref|]. intros n x y.
+    destruct (Hall n x y) as (_ & Hc). destruct (Hsame n x y) as (Hnone & Hread).
+    pose proof (par_files (the_ops inv ins) empty_store gl Hdone Hcan n x y) as Hpf. fold seq in Hpf.
+    split; [exact Hc|]. split; [exact Hpf|].
+    split; [split; intros X; [apply Hnone, Hpf, X|apply Hpf, Hnone, X]|].
+    intros r c Hr Hc'. rewrite <- (Hread r c Hr Hc').
+    apply tab_eq_window; [|exact Hr|exact Hc'].
+    exact (par_global_read (the_ops inv ins) empty_store gl Hdone n x y).
+  Qed.
 End Glue.
+
+(* ---- packaged statements (Properties/C09.v) -------------------------------------------- *)
+
+(* one tile: every complete run of update_image's protocol by the updates that
+   target tile (n, x, y) leaves the lock free and the content that C09's atomic
+   updates leave when applied in the order in which the lock was acquired; that
+   order contains each of these updates exactly once *)
+Theorem tile_linearizable_thm :
+  forall (V : Type) (ops : list (@op V)) (n x y : Z) (s0 : @store V) (l : list lact),
+  let fs := fs_at ops n x y in
+  let s := lrun tdflt tmasked fs (linit fs (file_of (s0 n x y))) l in
+  all_done s = true ->
+  lock s = None /\
+  Permutation (pick (ops_at ops n x y) (rev (order s))) (ops_at ops n x y) /\
+  content tdflt (file s) =
+  Some (tab (read_image_masked (run_ops (pick (ops_at ops n x y) (rev (order s))) s0) n x y)).
+Proof. intros V ops n x y s0 l. exact (tile_linearizable ops n x y s0 l). Qed.
+
+(* the parallel tile phase, all tiles, every schedule: displayed mosaic *)
+Theorem multitan_parallel_eq_serial_thm :
+  forall (V : Type) W H t inv (ins : list (@input V)) (gl : list gact),
+  study_tiling W H = Some t -> (forall i, In i ins -> valid_input t i) -> overlaps_agree ins ->
+  let g := grun (the_ops inv ins) (ginit (the_ops inv ins) empty_store) gl in
+  (forall n x y, all_done (g n x y) = true) ->
+  (forall n x y, lock (g n x y) = None) /\
+  (forall R C, mosaic_display t inv (par_store g) R C = expected_mosaic t (pasted ins) R C) /\
+  (exists s_ser, tile_serial inv ins = Some s_ser /\
+     forall R C, mosaic_display t inv (par_store g) R C = mosaic_display t inv s_ser R C).
+Proof. intros V W H t inv ins gl. exact (multitan_parallel_lemma W H t inv ins gl). Qed.
+
+(* ... it is an atomic run of exactly the updates, and leaves the tile files of
+   the pasted mosaic *)
+Theorem multitan_parallel_atomic_thm :
+  forall (V : Type) W H t inv (ins : list (@input V)) (gl : list gact),
+  study_tiling W H = Some t -> (forall i, In i ins -> valid_input t i) -> overlaps_agree ins ->
+  let g := grun (the_ops inv ins) (ginit (the_ops inv ins) empty_store) gl in
+  (forall n x y, all_done (g n x y) = true) ->
+  exists seq s_ref,
+    Permutation seq (the_ops inv ins) /\
+    tile_image true t inv (pasted ins) = Some s_ref /\
+    forall n x y,
+      content tdflt (file (g n x y)) = Some (tab (read_image_masked (run_ops seq empty_store) n x y)) /\
+      (par_store g n x y = None <-> run_ops seq empty_store n x y = None) /\
+      (par_store g n x y = None <-> s_ref n x y = None) /\
+      (forall r c, 0 <= r < 256 -> 0 <= c < 256 ->
+         read_image_masked (par_store g) n x y r c = read_image_masked s_ref n x y r c).
+Proof. intros V W H t inv ins gl. exact (multitan_parallel_atomic_lemma W H t inv ins gl). Qed.
+
+(* a schedule of the product acts on each tile as a schedule of Model/Lock.v *)
+Theorem product_projection_thm :
+  forall (V : Type) (ops : list (@op V)) (l : list gact) (g : @gstate V) n x y,
+  grun ops g l n x y = lrun tdflt tmasked (fs_at ops n x y) (g n x y) (proj n x y l).
+Proof. intros V ops l g n x y. exact (grun_proj ops l g n x y). Qed.
+
+(* the hypothesis of the two theorems above is satisfiable for every run: some
+   schedule of the product completes every updater (from C10's lock_no_deadlock
+   and lock_measure) *)
+Theorem product_completes_thm :
+  forall (V : Type) (ops : list (@op V)) (s0 : @store V),
+  exists gl, forall n x y, all_done (grun ops (ginit ops s0) gl n x y) = true.
+Proof. intros V ops s0. exact (product_completes ops s0). Qed.
